@@ -303,6 +303,9 @@ func c14Objects(c *fw.Ctx, emit func(codec)) {
 			if u%uint64(c.Of) == uint64(c.Shard) {
 				scalar(uint32(u))
 			}
+			if u&0xffff == 0 && c.Expired() {
+				break
+			}
 		}
 	} else {
 		for _, center := range []uint64{0, 1 << 31, 1 << 32} {
@@ -440,6 +443,9 @@ func runC14(c *fw.Ctx) {
 			c.Violate(sig, desc, 2*len(k.enc), c14Case{Codec: k.name, Enc: hexs(k.enc), Cut: -1, Trailer: hexs(k.enc)}, "")
 		}
 		for cut := 0; cut < len(k.enc); cut++ {
+			if c.Thorough() && (k.name == "Timestamp" || k.name == "Duration") && k.enc[3]&0x0f != 0 {
+				break // whole-domain sweep: the truncation protocol on every 16th value only
+			}
 			sig, desc, n := c14Eval(k, cut, nil)
 			c.Count("evaluations", n)
 			c.Count("prefixes", 1)
@@ -451,7 +457,7 @@ func runC14(c *fw.Ctx) {
 			c.Sample(4, map[string]any{"codec": k.name, "encoding_hex": hexs(k.enc), "decoded": k.extraWant, "prefixes_tried": len(k.enc)})
 		}
 	})
-	c.R.Bounds["grids"] = "headers: layouts x 6 methods x 7 xff bit patterns; series: 12 from x 4 steps x n<=6 x 2 remainders; point lists n<=4; doubles: sign x exponents (every 2nd quick, all 2048 thorough) x 12 mantissas + awkward; timestamps/durations: +-65536 around 0, 2^31, 2^32 (quick) or all 2^32 (thorough)"
+	c.R.Bounds["grids"] = "headers: layouts x 6 methods x 7 xff bit patterns; series: 12 from x 4 steps x n<=6 x 2 remainders; point lists n<=4; doubles: sign x exponents (every 2nd quick, all 2048 thorough) x 12 mantissas + awkward; timestamps/durations: +-65536 around 0, 2^31, 2^32 (quick) or all 2^32 (thorough; trailer variants on every 256th and the truncation protocol on every 16th value)"
 }
 
 func replayC14(c *fw.Ctx, raw json.RawMessage) (bool, string) {
